@@ -14,8 +14,8 @@
 #include "upipe/uref_block.h"
 #include "upipe/uref_flow.h"
 
-#define PFX_MAX_EVENTS 4096
-#define PFX_MAX_RECS   4096
+#define PFX_MAX_EVENTS 8192
+#define PFX_MAX_RECS   8192
 #define PFX_MAX_PROBES 48
 #define PFX_MAX_SINKS  12
 #define PFX_TRACK_PER_PROBE 8
@@ -137,6 +137,10 @@ uint64_t pfx_uref_seq(struct uref *uref);
 uint64_t pfx_payload_hash(struct uref *uref, size_t *size_p);
 uint64_t pfx_uref_sig(struct uref *uref);
 struct uref *pfx_flow_def_block(struct pfx *pfx, const char *def);
+
+/* false once the event / record logs are half full: a history should stop generating operations then (the tail of a case
+ * still needs room; an overflow makes the case an internal error, never a verdict) */
+static inline bool pfx_log_room(const struct pfx *pfx) { return pfx->nevents < PFX_MAX_EVENTS / 2 && pfx->nrecs < PFX_MAX_RECS / 2; }
 
 /* event-loop helpers */
 int pfx_run_loop(struct pfx *pfx, int max_steps);   /* dispatch runnable pumps (choice 0) until quiescent; returns steps */
